@@ -136,9 +136,9 @@ def finish(ctx, explanation, level_note=""):
     for n in ctx.notes: print("  note:", n)
     for k, o in known_hits:
         print(f"KNOWN-FINDING: property={ctx.pid} {o['rule']} {o['construct']} {k.get('what', '')}")
-    if unk:
-        for o in unk:
-            print(f"ANALYSIS-ERROR property={ctx.pid} {o['rule']} {o['construct']} {o['where']} {o['detail']}")
+    for o in unk:
+        print(f"ANALYSIS-ERROR property={ctx.pid} {o['rule']} {o['construct']} {o['where']} {o['detail']}")
+    if unk and not new_viol:
         return 2
     if new_viol:
         vdir = os.path.join(EVID, "violations"); os.makedirs(vdir, exist_ok=True)
